@@ -217,12 +217,14 @@ impl<T, U> Framed<T, U> {
         let ghost r0 = self.io.remaining();
         let ghost b0 = self.read_buf@;
         proof { assert(b0 + r0.subrange(0, 0) =~= b0); assert(r0.subrange(0, r0.len() as int) =~= r0); }
-//@insert after="Poll::Ready(Ok(cnt)) => cnt, };"
+//@insert loop_end=1
+            // (hint phrased over the state, not over the name of the local that holds the byte count: `c` bytes were read)
             proof {
-                assert(r0.subrange(0, m) + r0.subrange(m, r0.len() as int).subrange(0, cnt as int) =~= r0.subrange(0, m + cnt));
-                assert(r0.subrange(m, r0.len() as int).subrange(cnt as int, r0.len() - m) =~= r0.subrange(m + cnt, r0.len() as int));
-                assert(b0 + r0.subrange(0, m) + r0.subrange(m, r0.len() as int).subrange(0, cnt as int) =~= b0 + r0.subrange(0, m + cnt));
-                m = m + cnt;
+                let c = (r0.len() - m) - self.io.remaining().len();
+                assert(r0.subrange(0, m) + r0.subrange(m, r0.len() as int).subrange(0, c) =~= r0.subrange(0, m + c));
+                assert(r0.subrange(m, r0.len() as int).subrange(c, r0.len() - m) =~= r0.subrange(m + c, r0.len() as int));
+                assert(b0 + r0.subrange(0, m) + r0.subrange(m, r0.len() as int).subrange(0, c) =~= b0 + r0.subrange(0, m + c));
+                m = m + c;
             }
 //@loop 1
         invariant
